@@ -226,3 +226,31 @@ func VerifH_C12_waiting_insert() {
 		verifrt.Assert(found, "C12 every accepted seed reaches the output")
 	}
 }
+
+// VerifH_C12_concurrent_finish: two clients report the same seed finished at the same time (while another seed stays
+// in flight): exactly one of them succeeds, one token comes back, and tracked seeds == tokens in use afterwards.
+func VerifH_C12_concurrent_finish() {
+	verifrt.MapOrderAll(false)
+	out := make(chan *models.Item, 4)
+	_ = Start(2, out)
+	r := globalReactor
+	keeper, s := c12Seed(0), c12Seed(1)
+	verifrt.Assert(ReceiveInsert(keeper) == nil && ReceiveInsert(s) == nil, "C12 insert with a free token is accepted")
+	verifrt.Quiesce()
+	var e1, e2 error
+	var d1, d2 atomic.Bool
+	verifrt.Go(func() { e1 = MarkAsFinished(s); d1.Store(true) })
+	verifrt.Go(func() { e2 = MarkAsFinished(s); d2.Store(true) })
+	verifrt.Quiesce()
+	verifrt.Assert(d1.Load() && d2.Load(), "C12 finishing never blocks") // (a second finish that waits for a token that is not there would)
+	ok := 0
+	if e1 == nil {
+		ok++
+	}
+	if e2 == nil {
+		ok++
+	}
+	verifrt.Cover("two-finishes")
+	verifrt.Assert(ok == 1, "C12 repeated finish is rejected")
+	verifrt.Assert(len(r.tokenPool) == 1 && c12Tracked() == 1 && c12IsTracked(keeper.GetID()), "C12 finish gives back exactly one token")
+}
